@@ -69,7 +69,7 @@ class C16Machine(Machine):
            "target_column_last", "str_path", "pd_target_column", "later_row_also_fails",
            "result_missing_empty_cell", "target_cell_changed", "pd_missing_is_na", "pd_strict_raised",
            "zero_rows", "fault_in_other_column", "ambiguous_mode_converted_cell", "file_larger_than_8k", "table_ge_40_rows",
-           "eol_crlf", "eol_lf", "eol_mixed", "no_final_line_terminator", "sep_explicit_tab", "relative_path", "file_name_varied", "file_name_with_temp_or_backup_suffix", "same_path_again_after_failure",
+           "eol_crlf", "eol_lf", "eol_mixed", "eol_cr", "eol_mixed_cr", "no_final_line_terminator", "sep_explicit_tab", "relative_path", "file_name_varied", "file_name_with_temp_or_backup_suffix", "same_path_again_after_failure",
            "same_path_again_after_success", "pd_target_is_source", "pd_dtype_object", "pd_dtype_string", "pd_dtype_category", "pd_category_with_unused_categories", "converter_subclass_with_identifier_hook", "pd_int_labels", "pd_int_labels_not_positions", "file_flags_left_to_defaults", "pd_flags_left_to_defaults", "cell_convertible_only_after_extension", "fault_in_header", "cell_with_unicode_line_boundary",
            "pd_index_custom", "pd_index_reversed", "pd_index_offset", "pd_index_duplicated", "pd_index_sliced",
            "pd_index_named", "pd_index_multi", "pd_index_shuffled_dup"]
@@ -97,7 +97,7 @@ class C16Machine(Machine):
             # shape of the input file: how its lines end, and whether the last line is terminated
             "file_name": rng.choice([None, None, None, "t.tsv", "t.csv", "t", "t.tmp", "t.bak", "t.tsv.tmp", "t.tsv.bak",
                                      ".t", "a.b.tsv", "with space.tsv", "sub/t.tsv", "t.new", "t.old", "t.tsv~"]),
-            "eol": rng.choice(["crlf", "crlf", "lf", "lf", "mixed"]),
+            "eol": rng.choice(["crlf", "crlf", "lf", "lf", "mixed", "cr", "mixed_cr"]),
             "final_eol": rng.random() < 0.8,
             "p_nasty": rng.choice([0.2, 0.5, 0.9]),
             "n_pd": rng.choice([0, 1, 2, 3]),
@@ -528,7 +528,14 @@ class C16Machine(Machine):
         parts = []
         for n, row in enumerate(lines):
             buf = io.StringIO(newline="")
-            term = "\r\n" if eol == "crlf" or (eol == "mixed" and n % 2 == 0) else "\n"
+            if eol == "cr":
+                term = "\r"               # bare carriage returns end the lines ("CSV (Macintosh)")
+            elif eol == "mixed_cr":
+                term = ("\r", "\n", "\r\n")[n % 3]
+                if term == "\r" and n + 1 < len(lines) and not lines[n + 1]:
+                    term = "\r\n"       # (a bare CR followed by a blank line ending in LF would read as one CRLF)
+            else:
+                term = "\r\n" if eol == "crlf" or (eol == "mixed" and n % 2 == 0) else "\n"
             # always let csv quote with its default terminator (with lineterminator="\n" Python 3.12
             # leaves a bare \r inside a cell unquoted, and the file would denote another table);
             # then swap the terminator of the finished line
@@ -881,6 +888,12 @@ class C16Machine(Machine):
             err = e
         self.event(func)
         if err is not None:
+            if first_fail is None and isinstance(err, ValueError) and target is not None and target in names and target != col \
+                    and list(df.columns) == list(orig.columns) and df.equals(orig):
+                # the call asked to OVERWRITE an unrelated existing column with the results; refusing that and
+                # leaving the frame as it was keeps "all other columns are preserved" - not a violation
+                self.event("pd_overwrite_of_other_column_refused")
+                return {"raised": True, "refused_overwrite": True}
             if first_fail is None:
                 raise Violation(PROP, "unexpected_raise", site, {"exception": type(err).__name__, "op": _short(op)})
             self.probe("pd_strict_raised")
